@@ -1,6 +1,7 @@
 package spine
 
 import (
+	"errors"
 	"sync"
 	"sync/atomic"
 	"time"
@@ -86,6 +87,15 @@ func (c *HeartbeatManager) StartHeartbeat() error {
 	timeout, err := c.heartBeatTimeout.GetTimeDuration()
 	if err != nil {
 		return err
+	}
+
+	// without the heartbeat function on a local device diagnosis server feature
+	// there is nothing that could be updated
+	c.mux.Lock()
+	localFeature := c.localFeature
+	c.mux.Unlock()
+	if localFeature == nil {
+		return errors.New("the local DeviceDiagnosis server feature with the heartbeat function is missing")
 	}
 
 	// stopping a running heartbeat and starting the new one has to be one step,
